@@ -62,8 +62,7 @@ func (d *dependencyFunctionAwarePostProcessors) PostProcessProperties(properties
 		} else {
 			funcOption = container.FuncName(prop.TagVal)
 		}
-		dm := d.Registry.GetMetas(typeOption, funcOption)
-		prop.Injects = append(prop.Injects, dm...)
+		prop.Injects = d.Registry.GetMetas(typeOption, funcOption)
 	}
 	return nil, nil
 }
